@@ -797,8 +797,14 @@ func (lb *LoadBalancer) recordRequestMetrics(backend *Backend, statusCode int, s
 	lb.metricsCollector.RecordResponse(success, responseTime)
 	lb.metricsCollector.RecordBackendRequest(backend.Name, success, responseTime)
 
+	// A request its client abandoned before the backend had answered ends in a
+	// 502 the proxy writes for nobody. That says nothing about the backend: it
+	// must not count towards a passive ejection (a few impatient clients would
+	// take a healthy backend out of rotation).
+	abandoned := statusCode == http.StatusBadGateway && errors.Is(r.Context().Err(), context.Canceled)
+
 	// Check if the backend returned an error status code (5xx) and passive health checks are enabled
-	if statusCode >= 500 && lb.healthChecks.passiveEnabled {
+	if statusCode >= 500 && lb.healthChecks.passiveEnabled && !abandoned {
 		lb.handlePassiveHealthCheck(backend, statusCode, r)
 		return
 	}
